@@ -6,7 +6,7 @@
 (* Decision.tla and the workflow models.  One job = one call:              *)
 (*   begin  fn s sb items fast cnt hist fault(bool) total                  *)
 (*   round  sample items          one per buffer handed to the round fn    *)
-(*   ret    hang verdict haserr named consumed maxreq leak panic           *)
+(*   ret    hang verdict haserr named consumed maxreq leak late panic      *)
 (*   begin (real mode) additionally: real = TRUE, qs = items x s decimal   *)
 (*          strings (the Q-values the registry runners return on each      *)
 (*          sample); the histogram is then computed here by Decision!Hist. *)
@@ -61,6 +61,7 @@ Ret(e) ==
   /\ st.phase = "run"
   /\ e.hang = FALSE /\ e.panic = FALSE          \* returns within bounded time, never crashes
   /\ e.leak <= 0                                \* no goroutine left behind
+  /\ e.late = 0                                 \* nothing is read or judged after the verdict (decision after the barrier)
   /\ e.maxreq <= st.s * st.sb                   \* bytes beyond the s samples are never requested
   /\ (st.mustreject => e.verdict = FALSE /\ e.haserr = TRUE)   \* C14: degenerate sources are always rejected
   /\ IF ~st.decide THEN e.haserr = ~e.verdict
